@@ -100,6 +100,14 @@ fn main() {
             let srca: Vec<u8> = src.pixels().map(|p| p[3]).collect();
             format!("EQ={} N={:x} DIMS={} FILE={:x} LOC={} PIX={} AL={} SRCA={}", eq as u8, n, dims.join(","), bytes.len(), loc, pix, al, hex(&srca))
         }
+        // blpbytes <w> <h> <kind> <seed> <target> <mips> <filter> -> encoded file
+        "blpbytes" => {
+            let (w, h) = (num(t[1]) as u32, num(t[2]) as u32);
+            let src = make(w, h, num(t[3]), num(t[4]));
+            match image_to_blp(DynamicImage::ImageRgba8(src), t[6] == "1", target(t[5]), filter(t[7])).map_err(|e| format!("{e}")).and_then(|b| encode_blp(&b).map_err(|e| format!("{e}"))) {
+                Ok(b) => hex(&b), Err(e) => format!("ERR_{e}").replace(' ', "_"),
+            }
+        }
         _ => "ERR unknown".to_string(),
     });
 }
